@@ -4,6 +4,7 @@ package diam
 // The native replay build uses zz_verif_rt_native.go instead of this file.
 
 import (
+	"io"
 	"sync"
 
 	"github.com/fiorix/go-diameter/v4/diam/dict"
@@ -13,6 +14,7 @@ func vU8(tag string) uint8
 func vU16(tag string) uint16
 func vU32(tag string) uint32
 func vU64(tag string) uint64
+func vPick32(tag string, vals ...uint32) uint32
 func vBool(tag string) bool
 func vLen(tag string, lo, hi int) int
 func vInt(tag string, lo, hi int) int
@@ -41,3 +43,5 @@ func vPendingTimers() int
 func vLeaks() int
 func vHeld(mu *sync.Mutex) bool
 func vRecovered() int
+
+func vDictFile(f *dict.File) io.Reader
